@@ -275,7 +275,7 @@ def rr_rules(ctx, A):
         swp = [s_ for s_ in rr.switches() if s_['cond'][0] == 'discr' and any(rr.dominates(tgt, pc['block']) and lab == 'Some' for lab, tgt in s_['edges'])
                and any(is_call(x, 'Iterator::next') for x in walk(s_['cond'][1])) and strip(s_['cond'][1])[0] == 'field']
         ok_e1 = ok_e1 and len(swp) >= 1
-        ctx.ob(['C01', 'C03'], 'R-EXPR', 'E1|padding-amount', ok_e1,
+        ctx.ob(['C01', 'C03', 'C20'], 'R-EXPR', 'E1|padding-amount', ok_e1,
                'padding before an addressed field is exactly address − current end (same checked_sub result): %s' % show(amount)[:200], loc(pc['span']))
         # the padding is for the same loop element as the field that follows
         same_elem = [x for x in walk(addr) if is_call(x, 'Iterator::next')] and [x for x in walk(region_arg(fc)) if is_call(x, 'Iterator::next')] and \
